@@ -44,7 +44,7 @@ theorem R_setImpl_null {s : St} {t : Spec.LSt} (hs : Emit.Inv s) (hR : R s t) {i
   have hp : ∀ {l m : List (Nat × Option Nat)}, AR (PtrR t.sigs t.next) l m →
       AR (PtrR (aset t.sigs i g') n') (amap l (nullE E)) m := fun h =>
     ptrs_null (SigsLe.refl _ _) E hgone (ptrs_mono hn' hle h)
-  exact ⟨hR.T, hR.S, hR.G, hp hR.C, hp hR.K, hsigs, hR.ownedT, hp hR.ownedK, rfl, hR.depth, hR.steps, hR.trace, hR.k1, hR.k2⟩
+  exact ⟨hR.T, hR.S, hR.G, hp hR.C, hp hR.K, hsigs, hR.ownedT, hp hR.ownedK, hR.ownedG, rfl, hR.depth, hR.steps, hR.trace, hR.k1, hR.k2⟩
 
 /-! ## prologue -/
 
@@ -301,6 +301,6 @@ theorem inv_epilogue {s : St} (hs : Emit.Inv s) {i m : Nat} {im2 : Impl} (hi : a
       obtain ⟨c, hc, rfl⟩ := List.mem_map.mp hk
       exact Or.inl (List.mem_map.mpr ⟨c, Emit.epiImpl_cells_sub im2 _ c hc, rfl⟩)
     · intro c hc; exact hs.fwdC i im2 hi c (Emit.epiImpl_cells_sub im2 _ c hc)
-  exact this.congr ca cb cc cd (by rw [ce]; exact Nat.le_refl _)
+  exact this.congr ca cb cc cd (by rw [ce]; exact Nat.le_refl _) (Emit.epilogue_ownedG s i m)
 
 end Sigc.Refine
